@@ -288,7 +288,9 @@ theorem C04_owed_persists (cfg : Cfg) (s s' : St2) (e : Ev2) (h : accept2 cfg s 
   | cleanRestart =>
     simp only [accept2] at h
     split at h
-    · cases h; exact Or.inl hx
+    · split at h
+      · cases h; exact Or.inl hx
+      · cases h
     · cases h
   | markFail m c pos =>
     simp only [accept2] at h
@@ -344,11 +346,15 @@ theorem C04_owed_persists (cfg : Cfg) (s s' : St2) (e : Ev2) (h : accept2 cfg s 
         | _ => left; exact hx
       · cases h
 
-/-- a clean restart forgets the slots but neither a file nor a due mark -/
+/-- a clean stop happens only when no delivery is in flight (TERM: stop starting, wait for the outstanding reports), and the
+restart forgets neither a file nor a due mark -/
 theorem C04_cleanRestart_keeps (cfg : Cfg) (s s' : St2) (h : accept2 cfg s .cleanRestart = some s') :
-    s'.owed = s.owed ∧ s'.base.tab = s.base.tab ∧ s'.base.slots = [] := by
+    s.base.slots = [] ∧ s'.owed = s.owed ∧ s'.base.tab = s.base.tab ∧ s'.base.slots = [] := by
   simp only [accept2, accept] at h
-  cases h; exact ⟨rfl, rfl, rfl⟩
+  split at h
+  · rename_i he
+    cases h; exact ⟨by simpa using he, rfl, rfl, rfl⟩
+  · cases h
 
 /-- the layer only refuses: whatever `accept2` accepts, the base monitor accepts (so every theorem
 about `accept` — C03 and the ones above — applies to the histories the driver validates) -/
@@ -403,7 +409,9 @@ theorem C04_fin_step (cfg : Cfg) (s s' : St2) (e : Ev2) (h : accept2 cfg s e = s
       split at h <;> (cases h; exact Or.inl (Or.inr hmk))
     | cleanRestart =>
       simp only [accept2, accept] at h
-      cases h; exact Or.inl (Or.inr hmk)
+      split at h
+      · cases h; exact Or.inl (Or.inr hmk)
+      · cases h
   · -- the mark is due
     have hx : x ∈ s.owed := hf.resolve_right hmk
     have hmk' : markedDone s.base x = false := by simpa using hmk
